@@ -427,6 +427,15 @@ func refStats(tree *tr.Node, msgs []Pair) (condTrue, condFalse, errs, multiErrs 
 	return
 }
 
+func appendOnce(cl []string, x string) []string {
+	for _, y := range cl {
+		if y == x {
+			return cl
+		}
+	}
+	return append(cl, x)
+}
+
 func classes(c Case) []string {
 	var cl []string
 	s := shapeOf(c.Tree)
@@ -454,6 +463,15 @@ func classes(c Case) []string {
 	if s.hugePrio {
 		cl = append(cl, "priorities-beyond-2^53")
 	}
+	c.Tree.Walk(func(n *tr.Node, _ int) {
+		if n.T == tr.URLFilter && strings.Contains(n.P["host"], ":") {
+			for _, m := range c.Msgs {
+				if tr.HostMatch(m.Req.Host, n.P["host"]) {
+					cl = appendOnce(cl, "url-filter-host-with-port-or-v6-literal-and-matching-request")
+				}
+			}
+		}
+	})
 	if s.widePrio {
 		cl = append(cl, "priority-group>=13-entries-with-tie")
 		if s.depth >= 3 {
@@ -594,6 +612,10 @@ func (g *gen) filter(depth int) *tr.Node {
 	t := g.t
 	n := &tr.Node{ID: g.id(), P: map[string]string{}}
 	tr.GenFilterCond(t, n)
+	if n.T == tr.URLFilter && uni(t, "portedpattern", 3) == 0 {
+		// an authority with a port / a bracketed IPv6 literal as the host to match
+		n.P["host"] = pick(t, "ppat", []string{"example.com:8080", "*.example.com:8080", "[::1]:8080"})
+	}
 	n.Then = g.node(depth + 1)
 	if uni(t, "else", 3) > 0 {
 		n.Else = g.node(depth + 1)
@@ -671,6 +693,13 @@ func (g *gen) node(depth int) *tr.Node {
 
 func genPair(t *rapid.T) Pair {
 	rq, rs := tr.GenPair(t)
+	if uni(t, "portedhost", 5) == 0 {
+		// authority with a port, also on a bracketed IPv6 literal
+		rq.Host = pick(t, "phost", []string{"example.com:8080", "a.example.com:8080", "[::1]:8080", "example.com:8080"})
+		if rq.HostH != "" {
+			rq.HostH = rq.Host
+		}
+	}
 	if uni(t, "wirepath", 4) == 0 {
 		// the request line spells the path differently from Go's canonical escaping
 		w := tr.WirePaths[uni(t, "wirespelling", len(tr.WirePaths))]
@@ -751,6 +780,21 @@ func genCase(t *rapid.T) Case {
 	for i := 0; i < n; i++ {
 		c.Msgs = append(c.Msgs, genPair(t))
 	}
+	// a url.Filter whose host carries a port gets, 3 times in 4, a first
+	// request of exactly such an authority (a condition that can hold)
+	if n > 0 {
+		c.Tree.Walk(func(x *tr.Node, _ int) {
+			if x.T == tr.URLFilter && strings.Contains(x.P["host"], ":") && c.Msgs[0].Req.Wire != "-" {
+				if uni(t, "matchported", 4) > 0 {
+					h := strings.Replace(x.P["host"], "*", "a", -1)
+					c.Msgs[0].Req.Host = h
+					if c.Msgs[0].Req.HostH != "" {
+						c.Msgs[0].Req.HostH = h
+					}
+				}
+			}
+		})
+	}
 	return c
 }
 
@@ -760,7 +804,7 @@ var propTree = &kit.Prop[Case]{
 	ID: "C12", Name: "tree", Rule: "rapid-drawn " + treeRule,
 	Gen: genCase, Run: runTree, NonTrivial: nontrivial, Classes: classes,
 	Gates: map[string]float64{
-		"depth>=3": 0.30, "mixed-scopes-on-path": 0.10, "err-under-aggregate": 0.04, "priority-tie": 0.08, "priority-key-omitted-after-nonzero": 0.04, "priorities-beyond-2^53": 0.03, "priority-group>=13-entries-with-tie": 0.03,
+		"depth>=3": 0.30, "mixed-scopes-on-path": 0.10, "err-under-aggregate": 0.04, "priority-tie": 0.08, "priority-key-omitted-after-nonzero": 0.04, "priorities-beyond-2^53": 0.03, "url-filter-host-with-port-or-v6-literal-and-matching-request": 0.02, "priority-group>=13-entries-with-tie": 0.03,
 		"cond-true": 0.20, "cond-false": 0.20, "rejected": 0.10, "error-reported": 0.10, "else-present": 0.20,
 	},
 }
@@ -1296,7 +1340,7 @@ func TestReconfigureConcurrent(t *testing.T) {
 func extraFilter(c Case) *tr.Node {
 	var f *tr.Node
 	c.Tree.Walk(func(n *tr.Node, _ int) {
-		if n.T == tr.PortFilter || n.T == tr.RegexFilter || n.T == tr.HeaderFilter {
+		if n.T == tr.PortFilter || n.T == tr.RegexFilter || n.T == tr.HeaderFilter || n.T == tr.URLFilter {
 			f = n
 		}
 	})
@@ -1306,6 +1350,9 @@ func extraFilter(c Case) *tr.Node {
 func extraForm(f *tr.Node, rq *tr.Req) string {
 	if f.T == tr.HeaderFilter {
 		return "content-length-zero"
+	}
+	if f.T == tr.URLFilter {
+		return "host-with-port-or-v6-literal"
 	}
 	if f.T == tr.PortFilter {
 		v6 := strings.HasPrefix(rq.Host, "[")
@@ -1333,7 +1380,7 @@ func extraForm(f *tr.Node, rq *tr.Req) string {
 
 func runExtra(c Case) kit.Verdict {
 	f := extraFilter(c)
-	kind := map[string]string{tr.PortFilter: "port-filter", tr.RegexFilter: "regex-filter", tr.HeaderFilter: "header-filter"}[f.T]
+	kind := map[string]string{tr.PortFilter: "port-filter", tr.RegexFilter: "regex-filter", tr.HeaderFilter: "header-filter", tr.URLFilter: "url-filter"}[f.T]
 	var out kit.Verdict
 	if registryStuck.Load() {
 		return nil // see registryStuck
@@ -1395,7 +1442,7 @@ func runExtra(c Case) kit.Verdict {
 
 var propExtra = &kit.Prop[Case]{
 	ID: "C12", Name: "enum-port-regex-filters",
-	Rule: "ALL of: port.Filter{80,443,8080} x {http,https} x authority {name, name:80, name:8080, [::1], [::1]:8080} x {with, without else}; header.RegexFilter{X-A|x-a|Host} x {^1$, example} x request header {absent, 1, 2, [2 1]} x {with, without else}; each inside fifo[probe, filter{then probe, else probe}, probe] on one request/response pair; plus header.Filter{Content-Length, 0} on a response carrying Content-Length: 0; plus an unknown modifier in the modifier / else branch of port.Filter / header.RegexFilter (must be rejected); non-trivial = all",
+	Rule: "ALL of: port.Filter{80,443,8080} x {http,https} x authority {name, name:80, name:8080, [::1], [::1]:8080} x {with, without else}; header.RegexFilter{X-A|x-a|Host} x {^1$, example} x request header {absent, 1, 2, [2 1]} x {with, without else}; each inside fifo[probe, filter{then probe, else probe}, probe] on one request/response pair; plus url.Filter{host: name:port | *.name:port | [::1]:port | [::1]} x {request of that authority, another} x {request, response scope}; plus header.Filter{Content-Length, 0} on a response carrying Content-Length: 0; plus an unknown modifier in the modifier / else branch of port.Filter / header.RegexFilter (must be rejected); non-trivial = all",
 	Run:  runExtra,
 }
 
@@ -1440,6 +1487,23 @@ func TestEnumExtraFilters(t *testing.T) {
 						if !yield(c) {
 							return
 						}
+					}
+				}
+			}
+		}
+		// url.Filter whose host carries a port or is a bracketed IPv6 literal:
+		// a request of exactly that authority, and one that differs
+		for _, hm := range [][3]string{
+			{"example.com:8080", "example.com:8080", "example.com"},
+			{"*.example.com:8080", "a.example.com:8080", "a.example.com:80"},
+			{"[::1]:8080", "[::1]:8080", "[::1]"},
+			{"[::1]", "[::1]", "[::1]:8080"},
+		} {
+			for _, host := range hm[1:] {
+				for _, scope := range []string{"request", "response"} {
+					f := &tr.Node{T: tr.URLFilter, P: map[string]string{"host": hm[0]}, HasScope: true, Scope: []string{scope}}
+					if !yield(Case{Tree: wrap(f, true), Cut: -1, Msgs: []Pair{pair("http", host, nil)}}) {
+						return
 					}
 				}
 			}
